@@ -254,3 +254,127 @@ Proof.
   rewrite (Z.div_mod x (2 ^ m)) by lia. rewrite Hx, Z.add_0_r. rewrite (Z.mul_comm (2 ^ m)).
   apply lor_disjoint_add; assumption.
 Qed.
+
+(** ** the round trip *)
+Lemma nib_sum : forall x, 0 <= x < 2 ^ 32 ->
+  nib x 7 * 2 ^ (4 * 7) + nib x 6 * 2 ^ (4 * 6) + nib x 5 * 2 ^ (4 * 5) + nib x 4 * 2 ^ (4 * 4) +
+  nib x 3 * 2 ^ (4 * 3) + nib x 2 * 2 ^ (4 * 2) + nib x 1 * 2 ^ (4 * 1) + nib x 0 * 2 ^ (4 * 0) = x.
+Proof.
+  intros x Hx. unfold nib. cbn [Z.mul Pos.mul]. 
+  change (2 ^ 28) with 268435456. change (2 ^ 24) with 16777216. change (2 ^ 20) with 1048576.
+  change (2 ^ 16) with 65536. change (2 ^ 12) with 4096. change (2 ^ 8) with 256. change (2 ^ 4) with 16.
+  change (2 ^ 0) with 1. change (2 ^ 32) with 4294967296 in Hx.
+  lia.
+Qed.
+
+Lemma nib_top : forall x, 0 <= x < 2 ^ 30 -> nib x 7 < 4.
+Proof.
+  intros x Hx. unfold nib. change (2 ^ (4 * 7)) with 268435456. change (2 ^ 30) with 1073741824 in Hx. lia.
+Qed.
+
+Theorem ij_roundtrip : forall f i j, 0 <= f < 6 -> 0 <= i < 2 ^ 30 -> 0 <= j < 2 ^ 30 ->
+  exists o k, 0 <= o < 4 /\ rep (s2_cellIDFromFaceIJ f i j) f 30 k /\
+    s2_CellID_faceIJOrientation (s2_cellIDFromFaceIJ f i j) = (f, i, j, o).
+Proof.
+  intros f i j Hf Hi Hj.
+  rewrite fromIJ_fold.
+  assert (Ho7 : 0 <= Z.land f 1 < 2) by (rewrite land1; apply Z.mod_pos_bound; lia).
+  rewrite Pfold_clean by (try lia; intros k Hk; cbn in Hk; lia).
+  rewrite (wrap_u64_small f) by (change (2 ^ 64) with 18446744073709551616; lia).
+  rewrite go_shl_mul by lia.
+  rewrite (wrap_u64_small (f * 2 ^ 60)) by (change (2 ^ 64) with (16 * 2 ^ 60); lia).
+  cbn [fold_left]. unfold Pclean.
+  set (o7 := Z.land f 1) in *.
+  pose proof (nib_range i 7) as Ra7. pose proof (nib_range j 7) as Rb7.
+  pose proof (nib_top i Hi) as Ta. pose proof (nib_top j Hj) as Tb.
+  Ltac stepP o a b v onext H :=
+    pose proof (step_inverse o a b ltac:(lia) ltac:(apply nib_range) ltac:(apply nib_range)) as H;
+    cbv zeta in H; set (v := LP o a b) in *; set (onext := v mod 4) in *;
+    assert (0 <= onext < 4) by (apply Z.mod_pos_bound; lia).
+  stepP o7 (nib i 7) (nib j 7) v7 o6 S7.
+  stepP o6 (nib i 6) (nib j 6) v6 o5 S6.
+  stepP o5 (nib i 5) (nib j 5) v5 o4 S5.
+  stepP o4 (nib i 4) (nib j 4) v4 o3 S4.
+  stepP o3 (nib i 3) (nib j 3) v3 o2 S3.
+  stepP o2 (nib i 2) (nib j 2) v2 o1 S2.
+  stepP o1 (nib i 1) (nib j 1) v1 o0 S1.
+  stepP o0 (nib i 0) (nib j 0) v0 oF S0.
+  destruct S7 as (B7 & M7 & A7 & J7 & T7). destruct S6 as (B6 & M6 & A6 & J6 & _).
+  destruct S5 as (B5 & M5 & A5 & J5 & _). destruct S4 as (B4 & M4 & A4 & J4 & _).
+  destruct S3 as (B3 & M3 & A3 & J3 & _). destruct S2 as (B2 & M2 & A2 & J2 & _).
+  destruct S1 as (B1 & M1 & A1 & J1 & _). destruct S0 as (B0 & M0 & A0 & J0 & _).
+  specialize (T7 ltac:(lia) Ta Tb).
+  assert (P7 : 0 <= v7 / 4 < 16) by lia. assert (P6 : 0 <= v6 / 4 < 256) by lia.
+  assert (P5 : 0 <= v5 / 4 < 256) by lia. assert (P4 : 0 <= v4 / 4 < 256) by lia.
+  assert (P3 : 0 <= v3 / 4 < 256) by lia. assert (P2 : 0 <= v2 / 4 < 256) by lia.
+  assert (P1 : 0 <= v1 / 4 < 256) by lia. assert (P0 : 0 <= v0 / 4 < 256) by lia.
+  set (p7 := v7 / 4) in *. set (p6 := v6 / 4) in *. set (p5 := v5 / 4) in *. set (p4 := v4 / 4) in *.
+  set (p3 := v3 / 4) in *. set (p2 := v2 / 4) in *. set (p1 := v1 / 4) in *. set (p0 := v0 / 4) in *.
+  clearbody p7 p6 p5 p4 p3 p2 p1 p0.
+  cbn [Z.mul Pos.mul].
+  change (2 ^ 60) with 1152921504606846976. change (2 ^ 56) with 72057594037927936.
+  change (2 ^ 48) with 281474976710656. change (2 ^ 40) with 1099511627776.
+  change (2 ^ 32) with 4294967296. change (2 ^ 24) with 16777216. change (2 ^ 16) with 65536.
+  change (2 ^ 8) with 256. change (2 ^ 0) with 1.
+  rewrite (lor_add_low _ (p7 * 72057594037927936) 60) by (change (2 ^ 60) with 1152921504606846976; clear - Hf P7 P6 P5 P4 P3 P2 P1 P0; lia).
+  rewrite (lor_add_low _ (p6 * 281474976710656) 56) by (change (2 ^ 56) with 72057594037927936; clear - Hf P7 P6 P5 P4 P3 P2 P1 P0; lia).
+  rewrite (lor_add_low _ (p5 * 1099511627776) 48) by (change (2 ^ 48) with 281474976710656; clear - Hf P7 P6 P5 P4 P3 P2 P1 P0; lia).
+  rewrite (lor_add_low _ (p4 * 4294967296) 40) by (change (2 ^ 40) with 1099511627776; clear - Hf P7 P6 P5 P4 P3 P2 P1 P0; lia).
+  rewrite (lor_add_low _ (p3 * 16777216) 32) by (change (2 ^ 32) with 4294967296; clear - Hf P7 P6 P5 P4 P3 P2 P1 P0; lia).
+  rewrite (lor_add_low _ (p2 * 65536) 24) by (change (2 ^ 24) with 16777216; clear - Hf P7 P6 P5 P4 P3 P2 P1 P0; lia).
+  rewrite (lor_add_low _ (p1 * 256) 16) by (change (2 ^ 16) with 65536; clear - Hf P7 P6 P5 P4 P3 P2 P1 P0; lia).
+  rewrite (lor_add_low _ (p0 * 1) 8) by (change (2 ^ 8) with 256; clear - Hf P7 P6 P5 P4 P3 P2 P1 P0; lia).
+  set (K := p7 * 72057594037927936 + p6 * 281474976710656 + p5 * 1099511627776 +
+            p4 * 4294967296 + p3 * 16777216 + p2 * 65536 + p1 * 256 + p0 * 1).
+  assert (HK : 0 <= K < 2 ^ 60) by (unfold K; change (2 ^ 60) with 1152921504606846976; clear - P7 P6 P5 P4 P3 P2 P1 P0; lia).
+  set (c := f * 2 ^ 61 + (2 * K + 1) * 4 ^ (30 - 30)).
+  assert (Hrep : rep c f 30 K).
+  { split; [lia|]. split; [lia|]. split; [|reflexivity]. change (4 ^ 30) with (2 ^ 60). exact HK. }
+  assert (Ec : (f * 1152921504606846976 + p7 * 72057594037927936 + p6 * 281474976710656 + p5 * 1099511627776 +
+                 p4 * 4294967296 + p3 * 16777216 + p2 * 65536 + p1 * 256 + p0 * 1) * 2 = c - 1).
+  { unfold c. change (4 ^ (30 - 30)) with 1. change (2 ^ 61) with 2305843009213693952. unfold K. ring. }
+  rewrite Ec.
+  pose proof (rep_u64 _ _ _ _ Hrep) as Hcu.
+  assert (Hu : u64 c) by (unfold u64; change (2 ^ 64) with (8 * 2 ^ 61); clear - Hcu; lia).
+  rewrite (wrap_u64_small (c - 1)) by (unfold u64 in Hu; clear - Hu Hcu; lia).
+  replace (c - 1 + 1) with c by ring. rewrite !(wrap_u64_small c Hu).
+  exists oF, K. split; [assumption|]. split; [exact Hrep|].
+  rewrite faceIJ_fold. cbv zeta. rewrite (Face_rep _ _ _ _ Hrep), (lsb_rep _ _ _ _ Hrep).
+  change (Z.land (4 ^ (30 - 30)) 1229782938247303440 =? 0) with true. cbn [negb].
+  fold o7.
+  rewrite Ifold_clean; [|exact Hu|clear - Ho7; lia|left; reflexivity|intros k Hk; cbn in Hk; clear - Hk; lia|vm_compute; split; congruence|vm_compute; split; congruence].
+  cbn [fold_left]. unfold Iclean.
+  assert (EcK : c = f * 2305843009213693952 + 2 * K + 1).
+  { unfold c. change (4 ^ (30 - 30)) with 1. change (2 ^ 61) with 2305843009213693952. ring. }
+  clearbody c. clear Hrep Ec Hcu Hu.
+  assert (D7 : (c / 2 ^ (8 * 7 + 1)) mod 2 ^ (2 * 2) = p7).
+  { change (2 ^ (8 * 7 + 1)) with 144115188075855872. change (2 ^ (2 * 2)) with 16.
+    unfold K in EcK. clear - EcK P7 P6 P5 P4 P3 P2 P1 P0 Hf. lia. }
+  assert (D6 : (c / 2 ^ (8 * 6 + 1)) mod 2 ^ (2 * 4) = p6).
+  { change (2 ^ (8 * 6 + 1)) with 562949953421312. change (2 ^ (2 * 4)) with 256.
+    unfold K in EcK. clear - EcK P7 P6 P5 P4 P3 P2 P1 P0 Hf. lia. }
+  assert (D5 : (c / 2 ^ (8 * 5 + 1)) mod 2 ^ (2 * 4) = p5).
+  { change (2 ^ (8 * 5 + 1)) with 2199023255552. change (2 ^ (2 * 4)) with 256.
+    unfold K in EcK. clear - EcK P7 P6 P5 P4 P3 P2 P1 P0 Hf. lia. }
+  assert (D4 : (c / 2 ^ (8 * 4 + 1)) mod 2 ^ (2 * 4) = p4).
+  { change (2 ^ (8 * 4 + 1)) with 8589934592. change (2 ^ (2 * 4)) with 256.
+    unfold K in EcK. clear - EcK P7 P6 P5 P4 P3 P2 P1 P0 Hf. lia. }
+  assert (D3 : (c / 2 ^ (8 * 3 + 1)) mod 2 ^ (2 * 4) = p3).
+  { change (2 ^ (8 * 3 + 1)) with 33554432. change (2 ^ (2 * 4)) with 256.
+    unfold K in EcK. clear - EcK P7 P6 P5 P4 P3 P2 P1 P0 Hf. lia. }
+  assert (D2 : (c / 2 ^ (8 * 2 + 1)) mod 2 ^ (2 * 4) = p2).
+  { change (2 ^ (8 * 2 + 1)) with 131072. change (2 ^ (2 * 4)) with 256.
+    unfold K in EcK. clear - EcK P7 P6 P5 P4 P3 P2 P1 P0 Hf. lia. }
+  assert (D1 : (c / 2 ^ (8 * 1 + 1)) mod 2 ^ (2 * 4) = p1).
+  { change (2 ^ (8 * 1 + 1)) with 512. change (2 ^ (2 * 4)) with 256.
+    unfold K in EcK. clear - EcK P7 P6 P5 P4 P3 P2 P1 P0 Hf. lia. }
+  assert (D0 : (c / 2 ^ (8 * 0 + 1)) mod 2 ^ (2 * 4) = p0).
+  { change (2 ^ (8 * 0 + 1)) with 2. change (2 ^ (2 * 4)) with 256.
+    unfold K in EcK. clear - EcK P7 P6 P5 P4 P3 P2 P1 P0 Hf. lia. }
+  rewrite D7, M7, D6, M6, D5, M5, D4, M4, D3, M3, D2, M2, D1, M1, D0, M0.
+  rewrite A7, A6, A5, A4, A3, A2, A1, A0, J7, J6, J5, J4, J3, J2, J1, J0.
+  rewrite !Z.add_0_l.
+  rewrite (nib_sum i) by (change (2 ^ 32) with 4294967296; change (2 ^ 30) with 1073741824 in Hi; clear - Hi; lia).
+  rewrite (nib_sum j) by (change (2 ^ 32) with 4294967296; change (2 ^ 30) with 1073741824 in Hj; clear - Hj; lia).
+  reflexivity.
+Qed.
